@@ -160,7 +160,57 @@ func H_c04m(p []int) {
 	vAssert(!r.panicked || f.panicked, "C11/no-panic-unless-fmt-panics")
 }
 
+// H_c04w: the directive is assembled from a flag subset, a width and a
+// precision drawn from boundary tables (the scratch buffers of the
+// printer are 68 bytes; the tables straddle that and the float buffer),
+// and a verb.  p = [kind, flag mask (+ - # space 0), width index, precision index, verb index, n]
+var c04wWidths = []int{-1, 3, 64, 67, 68, 69, 70, 80, 1000}
+var c04wPrecs = []int{-1, 0, 2, 66, 67, 68, 70, 1000}
+
+const c04wVerbs = "dxobvcqUfegsXEGOt"
+
+func c04wDirective(mask, wi, pi, vi int) string {
+	d := "%"
+	for k, c := range []byte("+-# 0") {
+		if mask&(1<<uint(k)) != 0 {
+			d += string(rune(c))
+		}
+	}
+	if w := c04wWidths[wi]; w >= 0 {
+		d += fmt.Sprint(w)
+	}
+	if pr := c04wPrecs[pi]; pr >= 0 {
+		d += "." + fmt.Sprint(pr)
+	}
+	return d + string(rune(c04wVerbs[vi]))
+}
+
+func H_c04w(p []int) {
+	kind, n := p[0], p[5]
+	d := c04wDirective(p[1], p[2], p[3], p[4])
+	if addrLeak(kind, d) {
+		return
+	}
+	s, i := symLeaves(kind, n, true)
+	if strings.ContainsAny(d, "qUc") {
+		vAssume(i < 0x100)
+	}
+	vSite(fmt.Sprintf("kind=%d dir=%q", kind, d))
+	r := catchRedact(func() redact.RedactableString { return redact.Sprintf("["+d+"]", mkValue(kind, s, i)) })
+	f := catchFmt(func() string { return fmt.Sprintf("["+d+"]", mkValue(kind, s, i)) })
+	vObserve("redact", []byte(r.out))
+	vAssert(r.panicked == f.panicked, "C04/panic-equivalence")
+	if !r.panicked && !f.panicked {
+		vAssert(bytesEq(strip([]byte(r.out)), esc([]byte(f.out))), "C04/strip-eq-fmt")
+		wf, ls := wfls([]byte(r.out))
+		vAssert(wf, "C01/wf")
+		vAssert(ls, "C03/lineSafe")
+	}
+	vAssert(!r.panicked || f.panicked, "C11/no-panic-unless-fmt-panics")
+}
+
 func init() {
+	Harnesses["H_c04w"] = H_c04w
 	Harnesses["H_c04m"] = H_c04m
 	Harnesses["H_c04"] = H_c04
 	Harnesses["H_c04p"] = H_c04p
